@@ -388,7 +388,9 @@ class MustCheck:
                     m = strip(m[3][0])
                     continue
                 break
-            if isinstance(m, tuple) and m[0] == "call" and m[1] in ("last", "max", "first") and m[3]:
+            # the *greatest* requested position: max(), or last() of the ascending-sorted vector (sorted_at); first() is the smallest
+            # and bounds nothing
+            if isinstance(m, tuple) and m[0] == "call" and m[1] in ("last", "max") and m[3]:
                 if is_param(coll_root(m[3][0]), pos):
                     return m[1], m
             return None
@@ -414,7 +416,7 @@ class MustCheck:
                         survivor, other = (tr, f) if truth else (f, tr)
                         if not body.can_reach_return(other):
                             edges.append((bb, survivor))
-                            if bd[0] in ("last", "first"):
+                            if bd[0] == "last":
                                 need_sorted.append((bb, bd))
                 continue
             sde = strip(de)
